@@ -1,0 +1,116 @@
+//go:build verif
+
+// Package verifhook provides simulation hook points. This file is compiled only
+// with the "verif" build tag; a simulator installs handlers with Set*.
+package verifhook
+
+import (
+	"net"
+	"sync/atomic"
+	"time"
+)
+
+// Enabled reports whether simulation hooks are compiled in.
+const Enabled = true
+
+type (
+	// PointFunc handles Point and Yield events.
+	PointFunc func(ev string, args ...interface{})
+	// FaultFunc handles Fault events.
+	FaultFunc func(ev string, args ...interface{}) error
+	// DialFunc handles Dial requests; handled=false falls through to a real dial.
+	DialFunc func(network, addr string, timeout time.Duration) (c net.Conn, err error, handled bool)
+	// ListenFunc handles Listen requests; handled=false falls through to a real listen.
+	ListenFunc func(network, addr string) (l net.Listener, err error, handled bool)
+)
+
+var (
+	pointFn  atomic.Pointer[PointFunc]
+	faultFn  atomic.Pointer[FaultFunc]
+	yieldFn  atomic.Pointer[PointFunc]
+	dialFn   atomic.Pointer[DialFunc]
+	listenFn atomic.Pointer[ListenFunc]
+)
+
+// SetPoint installs (or with nil removes) the Point handler.
+func SetPoint(f PointFunc) {
+	if f == nil {
+		pointFn.Store(nil)
+		return
+	}
+	pointFn.Store(&f)
+}
+
+// SetFault installs (or with nil removes) the Fault handler.
+func SetFault(f FaultFunc) {
+	if f == nil {
+		faultFn.Store(nil)
+		return
+	}
+	faultFn.Store(&f)
+}
+
+// SetYield installs (or with nil removes) the Yield handler.
+func SetYield(f PointFunc) {
+	if f == nil {
+		yieldFn.Store(nil)
+		return
+	}
+	yieldFn.Store(&f)
+}
+
+// SetDial installs (or with nil removes) the Dial handler.
+func SetDial(f DialFunc) {
+	if f == nil {
+		dialFn.Store(nil)
+		return
+	}
+	dialFn.Store(&f)
+}
+
+// SetListen installs (or with nil removes) the Listen handler.
+func SetListen(f ListenFunc) {
+	if f == nil {
+		listenFn.Store(nil)
+		return
+	}
+	listenFn.Store(&f)
+}
+
+// Point marks a durable step or an observation point.
+func Point(ev string, args ...interface{}) {
+	if f := pointFn.Load(); f != nil {
+		(*f)(ev, args...)
+	}
+}
+
+// Fault asks the simulator whether an error should be injected at ev.
+func Fault(ev string, args ...interface{}) error {
+	if f := faultFn.Load(); f != nil {
+		return (*f)(ev, args...)
+	}
+	return nil
+}
+
+// Yield offers the simulator a scheduling decision at ev.
+func Yield(ev string, args ...interface{}) {
+	if f := yieldFn.Load(); f != nil {
+		(*f)(ev, args...)
+	}
+}
+
+// Dial lets the simulator provide a connection instead of a real socket.
+func Dial(network, addr string, timeout time.Duration) (net.Conn, error, bool) {
+	if f := dialFn.Load(); f != nil {
+		return (*f)(network, addr, timeout)
+	}
+	return nil, nil, false
+}
+
+// Listen lets the simulator provide a listener instead of a real socket.
+func Listen(network, addr string) (net.Listener, error, bool) {
+	if f := listenFn.Load(); f != nil {
+		return (*f)(network, addr)
+	}
+	return nil, nil, false
+}
